@@ -129,7 +129,15 @@ class History(object):
         self.step = -1
         self.flags = set()
         if is_mapped(self.so):
-            raise HarnessError('test library still mapped at the start of a history')
+            # left mapped by an earlier history (only possible when a dlclose did not close): the mapping is
+            # observed, not assumed, so put the globals back and carry on with a model of the mapped memory
+            tmp = ctypes.CDLL(self.so)
+            for name in GLOBALS:
+                CTYPES[name].in_dll(tmp, name).value = INITIAL[name]
+            import _ctypes
+            _ctypes.dlclose(tmp._handle)
+            self.mem = dict(INITIAL)
+            self.flags.add('mapped-at-start')
         if pin:
             self.pin = ctypes.CDLL(self.so, mode=ctypes.RTLD_GLOBAL if pin == 2 else ctypes.RTLD_LOCAL)
             self.mem = dict(INITIAL)
@@ -177,15 +185,23 @@ class History(object):
             raise HarnessError('model/mapping mismatch before open: mapped=%r' % was_mapped)
         l = L()
         l.mode = mode
-        l.lib = ffi.dlopen(self.so, fl) if fl else ffi.dlopen(self.so)
+        by_handle = (flags // 3) % 2 == 1
+        if by_handle:
+            # a lib object made from an already-opened 'void *' handle (both FFI flavours accept one)
+            import _ctypes
+            raw = _ctypes.dlopen(self.so, fl or os.RTLD_NOW)
+            l.lib = ffi.dlopen(ffi.cast('void *', raw))
+        else:
+            l.lib = ffi.dlopen(self.so, fl) if fl else ffi.dlopen(self.so)
         l.open = True
         l.fetched = set()
         l.before = l.after = l.closes = 0
         l.first_fetch_after = False
         self.libs.append(l)
-        if self.mem is None:
+        if not was_mapped:
             self.mem = dict(INITIAL)       # freshly loaded
-        return ['open-' + ('inline', 'ool')[mode], 'open-flags-' + ('default', 'global', 'lazy')[flags % 3]]
+        return ['open-' + ('inline', 'ool')[mode], 'open-flags-' + ('default', 'global', 'lazy')[flags % 3],
+                'open-by-' + ('handle' if by_handle else 'path')]
 
     def op_read(self, a, g, _):
         l = self.lib_for(a)
@@ -273,10 +289,11 @@ class History(object):
         l.open = False
         l.closes += 1
         if self.pin is None and not any(x.open for x in self.libs):
-            self.mem = None
             if is_mapped(self.so):
-                raise HarnessError('library still mapped after its last handle was closed')
-            self.flags.add('library-really-unmapped')
+                self.flags.add('still-mapped-after-last-close')     # the memory (and the model of it) stays
+            else:
+                self.mem = None
+                self.flags.add('library-really-unmapped')
         return lab
 
     def op_dir(self, a, _, __):
